@@ -157,6 +157,49 @@ def _check_main(ctx, res) -> None:
             tbl = idx.literal_node(dnl.unit.modname, lp.iter, dnl.cls)
             if isinstance(tbl, (ast.Tuple, ast.List)):
                 vals |= {e.value for e in tbl.elts if isinstance(e, ast.Constant) and isinstance(e.value, str)}
+    # ... or read off a pattern: `m = P.match(text)`; `newline = m.group(k) if m else "\n"` -- the alternatives of group k
+    for n in walk_local(dnl.node):
+        if not (isinstance(n, ast.Assign) and isinstance(n.targets[0], ast.Name) and n.targets[0].id == nl_var and isinstance(n.value, ast.IfExp)):
+            continue
+        for arm in (n.value.body, n.value.orelse):
+            if const_str(arm):
+                vals.add(const_str(arm))
+            if isinstance(arm, ast.Call) and call_name(arm) == "group" and arm.args and isinstance(arm.args[0], ast.Constant) and isinstance(arm.func.value, ast.Name):
+                mdef = [x.value for x in walk_local(dnl.node) if isinstance(x, ast.Assign) and isinstance(x.targets[0], ast.Name) and x.targets[0].id == arm.func.value.id]
+                pat = None
+                if len(mdef) == 1 and isinstance(mdef[0], ast.Call) and isinstance(mdef[0].func, ast.Attribute) and mdef[0].func.attr in ("match", "search"):
+                    pe = mdef[0].func.value if not (isinstance(mdef[0].func.value, ast.Name) and mdef[0].func.value.id == "re") else mdef[0].args[0]
+                    if isinstance(pe, ast.Name):
+                        for x in dnl.unit.tree.body:
+                            if isinstance(x, ast.Assign) and any(isinstance(t, ast.Name) and t.id == pe.id for t in x.targets):
+                                pe = x.value
+                    if isinstance(pe, ast.Call) and call_name(pe) == "compile" and pe.args:
+                        pe = pe.args[0]
+                    pat = const_str(pe)
+                if pat is None:
+                    continue
+                import re._parser as _sp
+                from re._constants import BRANCH, LITERAL, MAX_REPEAT, MIN_REPEAT, SUBPATTERN
+                items = list(_sp.parse(pat))
+                gi = next((i for i, (op, av) in enumerate(items) if op is SUBPATTERN and av[0] == arm.args[0].value), None)
+                if gi is None:
+                    continue
+                sub = list(items[gi][1][3])
+                alts = []
+                if len(sub) == 1 and sub[0][0] is BRANCH:
+                    for alt in sub[0][1][1]:
+                        if all(op is LITERAL for op, _ in alt):
+                            alts.append("".join(chr(av) for _, av in alt))
+                elif all(op is LITERAL for op, _ in sub):
+                    alts.append("".join(chr(av) for _, av in sub))
+                vals |= set(alts)
+                # what stands in front of the group is the text of the first line, which may be EMPTY
+                may_be_empty = all(op in (MAX_REPEAT, MIN_REPEAT) and av[0] == 0 for op, av in items[:gi])
+                res.add("R16.2", "detect|first-line-may-be-empty", may_be_empty, f"{dnl.unit.rel}:{n.lineno}",
+                        "the pattern that reads the convention off the first line break also matches when the first line is empty" if may_be_empty else
+                        f"the convention is read off the first line break with the pattern {pat!r}, which needs at least one character in front of it: for a CRLF (or CR) file "
+                        "whose FIRST LINE IS EMPTY the pattern does not match, the convention falls back to LF, and the next edit rewrites every line ending of the file",
+                        function=dnl.qualname)
     consts = sorted(vals)
     ok_a = ok_a and set(consts) >= {"\n", "\r\n", "\r"}
     res.add("R16.2", "detect", ok_a, dnl.where,
